@@ -93,7 +93,7 @@ func init() {
 	runner.Register(&runner.Prop{
 		ID: "C10",
 		Rule: "quick: 6 repo files + 400 generated movies (3 240 tool runs), thorough: + 20 000 generated movies (160 040 tool runs). One case = one input file x 8 runs of the built binary bin/tools/mp4ff-crop -d <ms> in out (files in the worker's scratch directory). Inputs: the repo's progressive test files, then generated movies (gen/prog.RandomMovie, own serializer, real avc1/hvc1/mp4a sample entries): 1..4 tracks (0..2 video with stss/GOPs, 0..3 audio), " +
-			"timescales that differ between tracks, with/without ctts (v0/v1), sdtp, edts/elst, stss; stco or co64; chunking from one chunk per sample to one chunk per track with 1..3 sample-description ids and non-maximal runs; sequential, round-robin, by-time or shuffled interleaving; junk gaps; mdat before or after moov; compact or 64-bit mdat header; " +
+			"timescales that differ between tracks, with/without ctts (v0/v1), sdtp, edts/elst, stss; stco or co64; chunking from one chunk per sample to one chunk per track with 1..3 sample-description ids and non-maximal runs; sequential, round-robin, by-time or shuffled interleaving; junk gaps; mdat before or after moov; compact or 64-bit mdat header; every 8th generated movie (co64 everywhere, 64-bit mdat header) is written as a sparse file of more than 4 GiB with a hole of about 2^32 bytes inside the mdat payload in front of a PRNG-chosen chunk, so that chunk offsets on both sides of 2^32 occur (the oracle keeps reading the compact twin: samples, times and bytes are the same); " +
 			"35% adversarial movies (tiny timescales, random per-sample durations) where tick rounding matters. Durations per file: 1 ms, three sample boundaries of the reference track -1/0/+1 ms, one random inside, total-1 ms, total, total+1000 ms. " +
 			"Oracle only for exit status 0: the output tiles (reference walker), decodes (mp4.DecodeFile) and its tables are consistent (reference expansion); per track the output samples equal the first k input samples (payload bytes, duration, composition offset, sync, sdtp byte, sample-description id) " +
 			"with k = number of samples of that track whose decode time/timescale < endTime and endTime = start of the first sync sample of the reference track (first vide, else first soun track) at or after the requested duration, all in exact integer cross-multiplication; chunks lie inside the single new mdat, do not overlap and fill it exactly; mvhd/tkhd/mdhd/elst durations <= the input's. " +
@@ -266,10 +266,12 @@ func run(c *runner.Ctx, idx int) {
 	var data []byte
 	var name, kind string
 	var gen *prog.File
+	huge := false
 	if idx < len(corpus) {
 		data, name, kind = corpus[idx].data, corpus[idx].name, "corpus"
 	} else {
-		gen = prog.RandomMovie(c.Rand, prog.MovieOptions{Entries: entries, MultiDesc: true})
+		huge = (idx-len(corpus))%8 == 3
+		gen = prog.RandomMovie(c.Rand, prog.MovieOptions{Entries: entries, MultiDesc: true, Huge: huge})
 		data, name, kind = gen.Bytes, gen.DescriptionLabel, "generated"
 	}
 	in, err := stbl.ParseFile(data)
@@ -351,9 +353,35 @@ func run(c *runner.Ctx, idx int) {
 
 	inPath := filepath.Join(c.Env.Scratch, fmt.Sprintf("in-%d.mp4", idx))
 	outPath := filepath.Join(c.Env.Scratch, fmt.Sprintf("out-%d.mp4", idx))
-	if err := os.WriteFile(inPath, data, 0o644); err != nil {
-		c.Inconclusive("cannot write scratch input")
-		return
+	written := false
+	if huge {
+		// the same movie as a sparse file of more than 4 GiB: a hole of 2^32 (+-) bytes inside the mdat payload in
+		// front of a PRNG-chosen chunk; everything the oracle expects (samples, times, bytes) is unchanged, it keeps
+		// reading the compact twin. The tool reads the input lazily, so the hole is never read.
+		at := c.Rand.Intn(len(gen.ChunkOrder))
+		by := uint64(1)<<32 - uint64(c.Rand.PickInt(0, 0, 1, 8, 4096)) + uint64(c.Rand.PickInt(0, 0, 16, 1<<20))
+		if pre, suf, sufAt, err := gen.StretchedPieces(at, by); err == nil {
+			if fh, err := os.Create(inPath); err == nil {
+				_, e1 := fh.WriteAt(pre, 0)
+				_, e2 := fh.WriteAt(suf, sufAt)
+				e3 := fh.Close()
+				if e1 == nil && e2 == nil && e3 == nil {
+					written = true
+					name += fmt.Sprintf(" +sparse-hole(%d bytes before chunk-order index %d of %d)", by, at, len(gen.ChunkOrder))
+					c.Count("inputs_larger_than_4GiB_sparse", 1)
+					c.Seen("input_kind", "generated,>4GiB-sparse")
+				}
+			}
+		}
+		if !written {
+			c.Count("sparse_input_not_written", 1)
+		}
+	}
+	if !written {
+		if err := os.WriteFile(inPath, data, 0o644); err != nil {
+			c.Inconclusive("cannot write scratch input")
+			return
+		}
 	}
 	defer os.Remove(inPath)
 	defer os.Remove(outPath)
